@@ -96,7 +96,7 @@ static uint32_t line_end(const hx_op *op, uint32_t pos) {
 
 static void mutate_cfg(hx_case *c) {
     int32_t *cf = c->cfg;
-    switch (rn(26)) {
+    switch (rn(28)) {
         case 0: cf[CF_PERSONALITY] = (int32_t) rn(12); break;
         case 1: cf[CF_AUTO_DESTROY] ^= 1; break;
         case 2: cf[CF_REQ_DECOMP] ^= 1; break;
@@ -128,6 +128,8 @@ static void mutate_cfg(hx_case *c) {
         case 23: cf[CF_OPEN] = rn(8) != 0; break;
         case 24: cf[CF_TX_CFG] ^= 1; break;
         case 25: cf[CF_EXTRACT_FILES] = cf[CF_EXTRACT_FILES] ? 0 : 4; cf[CF_MULTIPART_PARSER] = 1; break;
+        case 26: { static const int32_t hl[] = { 0, 1, 2, 3, 5, 8, 20 }; cf[CF_HDR_LIMIT] = hl[rn(7)]; break; }
+        case 27: cf[CF_LEADING_WS] = (int32_t) rn(4); break;
     }
 }
 
